@@ -296,8 +296,10 @@ def check_c07(v: Verdict, t1_summary, n_cases, max_ops):
         if ci % 2 == 1:
             import lane_disp as _LD
             targets = [(_LD.A, ("regfunc", 1)), (int, ("regfunc", 4)), (_LD.NT1, ("regfunc", 10)), (Union[int, str], ("regfunc", 8)),
-                       (_LD.NT2, ("reghook", None)), (Union[_LD.P, _LD.Q], ("reghook", None)), (Union[int, str], ("reghook", None))]
-            for t, (how, pid) in rng.sample(targets, 2):
+                       (_LD.NT2, ("reghook", None)), (Union[_LD.P, _LD.Q], ("reghook", None)), (Union[int, str], ("reghook", None)),
+                       # hook FACTORIES (3-tuples in the predicate list), plain and converter-taking
+                       (_LD.A, ("regfact", 1)), (int, ("regfact", 4)), (_LD.NT1, ("regfact", 10)), (Union[int, str], ("regfact", 8))]
+            for ti_, (t, (how, pid)) in enumerate(rng.sample(targets, 3)):
                 d = rng.choice(["DUn", "DSt"])
                 kind = rng.choice(["list", "holder"])
                 if d == "DUn" and kind == "list" and not full:
@@ -305,9 +307,12 @@ def check_c07(v: Verdict, t1_summary, n_cases, max_ops):
                 x0 = r.do(("nested", 0, d, pool.tid(t), kind))          # warm: the container's hook is generated now
                 if x0 is not None:
                     probes.append((("probe", 0, d, pool.tid(t), True), x0, len(r.history[0]), False))
-                hid = 800 + 10 * (ci % 20)
-                r.do(("regfunc", 0, d, pid, hid) if how == "regfunc" else ("reghook", 0, d, pool.tid(t), hid))
-                hist["regfunc" if how == "regfunc" else "reghook"] += 1
+                hid = 800 + 10 * (ci % 20) + ti_
+                if how == "regfact":
+                    r.do(("regfact", 0, d, pid, hid, rng.random() < 0.5, None))
+                else:
+                    r.do(("regfunc", 0, d, pid, hid) if how == "regfunc" else ("reghook", 0, d, pool.tid(t), hid))
+                hist[how] += 1
                 x = r.do(("nested", 0, d, pool.tid(t), kind))
                 if x is not None:
                     hist["nested"] += 1
